@@ -1041,7 +1041,8 @@ public:
         if (auto* ft = m->getDescribedFunctionTemplate())
         {
             for (auto* spec : ft->specializations())
-                VisitFunctionDecl(spec);
+                if (visitedSpecs.insert(spec).second)
+                    TraverseDecl(spec); // emits the instantiation and descends into nested (generic) lambdas
             return true;
         }
         VisitFunctionDecl(m);
@@ -1160,6 +1161,7 @@ public:
 
     Emitter               E;
     std::set<std::string> seenFn, seenCls;
+    std::set<const Decl*> visitedSpecs;
     Array                 functions, classes, enums, aliases, gvars;
 };
 
